@@ -31,7 +31,7 @@ PROPS = {
         "assumptions": ["append growth policy is the host runtime's for 16-byte elements (identical element size to types.MalType)"],
         "runs": [
             {"pkg": "./c02", "harness": "Harness_history", "setup": "Setup",
-             "params": {"quick": {"steps": 2, "ophi": 17, "seedmask": 1043}, "thorough": {"steps": 2}}, "wall": {"thorough": "10m"}},
+             "params": {"quick": {"steps": 2, "ophi": 18, "seedmask": 1043}, "thorough": {"steps": 2}}, "wall": {"thorough": "10m"}},
             {"pkg": "./c02", "harness": "Harness_maps", "setup": "Setup",
              "params": {"quick": {"steps": 2, "mapops": 1, "seedmask": 1004}, "thorough": {"steps": 3, "mapops": 1, "seedmask": 1004}}, "wall": {"thorough": "10m"}},
         ],
@@ -146,6 +146,8 @@ PROPS = {
         "runs": [
             {"pkg": "./c08", "harness": "Harness_tail", "setup": "Setup",
              "params": {"quick": {"wrappers": 2, "cycle": 2}, "thorough": {"wrappers": 3, "cycle": 3}}, "wall": {"thorough": "10m"}},
+            {"pkg": "./c08", "harness": "Harness_tail_session", "setup": "Setup",
+             "params": {"quick": {"wrappers": 1, "cycle": 2, "session": 1}, "thorough": {"wrappers": 2, "cycle": 2, "session": 1}}, "wall": {"thorough": "10m"}},
         ],
     },
     "C19": {
